@@ -40,6 +40,14 @@ FlowPairReason(e) ==
   ELSE IF PPG!PepCmp(PPG!Greedy(e.pep0), PPG!Greedy(e.pep1)) >= 0 THEN "flow-pep440-not-increasing-along-history"
   ELSE "ok"
 
+\* C03 on real repositories: HEAD (clean) carries a final release X.Y.Z as its base tag => flow prints exactly X.Y.Z
+FinalCore(t) == SVG!IsSemVer(t) /\ SVG!CoreFits(t) /\ SVG!Parse(t).pre = <<>> /\ SVG!Parse(t).build = <<>>
+FlowCleanReason(e) ==
+  LET here == { x \in Expected("auto") : x.distance = 0 } IN
+  IF here = {} \/ \E x \in here : ~FinalCore(x.tag) THEN "ok"            \* not at a tag, or not (only) final releases
+  ELSE IF ~\E x \in here : e.sv = SVG!StripV(x.tag) THEN "flow-clean-tag-not-reproduced-semver"
+  ELSE IF ~\E x \in here : e.pep = SVG!StripV(x.tag) THEN "flow-clean-tag-not-reproduced-pep440"
+  ELSE "ok"
 Apply(e) ==
   CASE e.op = "commit"   -> Commit
     [] e.op = "branch"   -> Branch(e.arg)
@@ -65,6 +73,9 @@ TNext ==
                                           ELSE PPG!GreedyAccepts(e.text) /\ PPG!NormalOf(e.text) = e.text IN
                                IF ok THEN TRUE ELSE PrintT("MISMATCH " \o ToString(l) \o " git-output-not-wellformed")
                             /\ UNCHANGED gvars /\ Last
+       [] e.k = "flowclean" -> /\ LET why == FlowCleanReason(e) IN
+                                  IF why = "ok" THEN TRUE ELSE PrintT("MISMATCH " \o ToString(l) \o " " \o why)
+                               /\ UNCHANGED gvars /\ Last
        [] e.k = "flowpair" -> /\ LET why == FlowPairReason(e) IN
                                  IF why = "ok" THEN TRUE ELSE PrintT("MISMATCH " \o ToString(l) \o " " \o why)
                               /\ UNCHANGED gvars /\ Last
